@@ -1019,6 +1019,12 @@ fn layout(b: &mut Batch, g: &mut Rng) {
     }
 }
 
+// KNOWN-FINDING candidate (not generated; reproduce with the impl op `c11.binext`): Rows returned by
+// `from_binary(binary.slice(k, m))` keep the WHOLE values buffer of the sliced array. Reading them is fine, but
+// extending them is not: `Rows::push` records `buffer.len()` as the end of the new row, so the new row starts at the
+// old last offset and swallows the stale bytes after the slice (Int32 [1,7,9], slice(1,1), push(row 0) -> a 10-byte row);
+// `RowConverter::append` resizes the buffer without zeroing the stale region, so null / padded values keep stale bytes
+// (Int32 [null,7,9], slice(0,1), append([null,..]) -> 00 80 00 00 07 instead of 00 00 00 00 00).
 pub fn generate(tier: &str, r: &mut Rng, emit: &mut dyn FnMut(Case)) {
     let thorough = tier == "thorough";
     let scale = if thorough { 10 } else { 1 };
